@@ -11,9 +11,10 @@ Reading guide (definitions in Code/Pycode.lean and Code/PycodeWF.lean):
   `wf W v`          `v` is built from classes that exist in world `W`
   `domOK W v`       the property's own domain (no NaN, hashable keys,
                     `init=False` attributes at their default)
-  `importsOK W v`   no two imported classes share a name
+  `renders W v`     `render` returns instead of raising SerializerError: no
+                    outermost name belongs to classes of two modules
 -/
-import XsdataModel.Proofs.Pycode
+import XsdataModel.Proofs.PycodeLit
 
 namespace Props.C18
 open Py Xs.Code
@@ -54,7 +55,32 @@ theorem qname_escapes_surrogates :
     Tables.qnameEscSurrogates = [0xD800, 0xDBFF, 0xDC00, 0xDFFF].map escapeCp := by
   decide
 
+/-- `repr()` of the probe strings and bytes, as the interpreter prints them
+today, is what the model computes (quote choice, `\\x`/`\\u`/`\\U` escapes, the
+printability table) -/
+theorem repr_probes :
+    Tables.strReprProbes.all (fun p => pyReprStr tblPrintable p.1 == p.2) = true ∧
+    Tables.bytesReprProbes.all (fun p => pyReprBytes p.1 == p.2) = true := by
+  decide +kernel
+
 /-! ## What holds of the code as it is -/
+
+/-- **str_repr_roundtrips**: for every string of scalar values and *every*
+printability table, the parser reads `repr(s)` — whichever quote it picked,
+with `\\x`, `\\u`, `\\U` escapes for what it found unprintable — back as `s`.
+This discharges the hypothesis `domOK` makes about the `repr` of a `str`. -/
+theorem str_repr_roundtrips (pr : Char → Bool) (s : Str) : decodeStrLit (pyReprStr pr s) = some s :=
+  decodeStrLit_pyReprStr pr s
+
+/-- **bytes_repr_roundtrips**: likewise for `repr(b)` of any bytes value -/
+theorem bytes_repr_roundtrips (bs : List Nat) (h : ∀ b ∈ bs, b < 256) :
+    decodeBytesLit (pyReprBytes bs) = some bs :=
+  decodeBytesLit_pyReprBytes bs h
+
+example : decodeStrLit (pyReprStr tblPrintable (cs!"a'b\"c\\\n" ++ [Char.ofNat 0x80, Char.ofNat 0xE9, Char.ofNat 0x2028, Char.ofNat 0xE0001]))
+    = some (cs!"a'b\"c\\\n" ++ [Char.ofNat 0x80, Char.ofNat 0xE9, Char.ofNat 0x2028, Char.ofNat 0xE0001]) ∧
+    decodeBytesLit (pyReprBytes [97, 39, 0, 255, 92]) = some [97, 39, 0, 255, 92] := by decide +kernel
+
 
 /-- **qname_text_roundtrips**: whatever the text of a QName — quotes,
 backslashes, control characters, any Unicode scalar value — the Python parser
@@ -97,14 +123,14 @@ theorem imports_exact (ts : List ClsRef) (m n : Str) :
     have : (t.module == builtinsMod) = false := by simpa using hnb
     simp [importOf, this]
 
-/-- **imports_sufficient (partial)**: for every world and every value in the
-property's domain, provided no two imported classes share a name, each dotted name the emitted expression uses — class
-constructors at any nesting depth, enum members of nested enums, `QName`,
-`Decimal`, `float`, `set`, `frozenset` — resolves, in the namespace created by the emitted
-import lines alone, to exactly the class it was written for. -/
-theorem imports_sufficient_partial (W : World) (v : Val)
-    (hwf : wf W v = true) (hdom : domOK W v = true) 
-    (himp : importsOK W v = true) :
+/-- **imports_sufficient**: for every world and every value in the property's
+domain for which `render` returns, each dotted name the emitted expression
+uses — class constructors at any nesting depth, enum members of nested enums,
+`QName`, `Decimal`, `float`, `set`, `frozenset` — resolves, in the namespace
+created by the emitted import lines alone, to exactly the class it was written
+for. -/
+theorem imports_sufficient (W : World) (v : Val)
+    (hwf : wf W v = true) (hdom : domOK W v = true) (hr : renders W v = true) :
     EnvGood W (importsEnv W v) (render W v).refs := by
   intro pc hpc
   have hok := valOK_of_dom W v hdom
@@ -112,7 +138,7 @@ theorem imports_sufficient_partial (W : World) (v : Val)
   have hmem := refs_sub_types (render W v) pc hpc
   apply resolve_of_good hg hmem
   intro t ht
-  have := himp
+  have := importsOK_of_renders W v hwf hok hr
   simp only [importsOK, importsOKe, List.all_eq_true] at this
   have h := this pc hpc t ht
   simp only [Bool.or_eq_true, beq_iff_eq, bne_iff_ne] at h
@@ -121,31 +147,48 @@ theorem imports_sufficient_partial (W : World) (v : Val)
   · exact Or.inr (Or.inl h)
   · exact Or.inr (Or.inr h)
 
-/-- **code_rt (partial)**: executing the rendered source — the emitted import
-lines, then the emitted expression — succeeds and yields a value Python-equal
-to the original, for all classes (nested, frozen, with `init=False` fields and
-default factories) and all instances in the domain: members of nested enums,
-tuples (also as dict keys), sets and frozensets, QNames with any text, ±inf,
-Decimals, bytes, date/time values, empty and nested collections, attribute maps. Fields elided
-because they equal their default are restored by the constructor to a value
-equal to the original's. Still excluded: an import name clash (`importsOK`). -/
+/-- **code_rt (partial)**: whenever `render` returns and the rendered
+expression stays within the parser's bracket-nesting limit, executing the
+rendered source — the emitted import lines, then the emitted expression —
+succeeds and yields a value Python-equal to the original, for all classes
+(nested, frozen, with `init=False` fields and default factories) and all
+instances in the domain: members of nested enums, tuples (also as dict keys),
+sets and frozensets, strings and bytes with any content, QNames with any text,
+±inf, Decimals, date/time values, empty and nested collections, attribute
+maps. Fields elided because they equal their default are restored by the
+constructor to a value equal to the original's. -/
 theorem code_rt_partial (W : World) (v : Val)
-    (hwf : wf W v = true) (hdom : domOK W v = true) 
-    (himp : importsOK W v = true) :
+    (hwf : wf W v = true) (hdom : domOK W v = true) (hr : renders W v = true)
+    (hn : nestingOK W v = true) :
     ∃ v', run W v = .ok v' ∧ pyEq v' v = true := by
   obtain ⟨v', h1, h2, _⟩ := rt W (importsEnv W v) v hwf (valOK_of_dom W v hdom)
-    (imports_sufficient_partial W v hwf hdom himp)
-  exact ⟨v', h1, h2⟩
+    (imports_sufficient W v hwf hdom hr)
+  exact ⟨v', by simp [run, hn, h1], h2⟩
 
 /-- the same, phrased on the outcome class that the correspondence check
 compares with the real `exec` -/
 theorem outcome_equal_partial (W : World) (v : Val)
-    (hwf : wf W v = true) (hdom : domOK W v = true) 
-    (himp : importsOK W v = true) :
+    (hwf : wf W v = true) (hdom : domOK W v = true) (hr : renders W v = true)
+    (hn : nestingOK W v = true) :
     outcome W v = cs!"equal" := by
-  obtain ⟨v', hr, he⟩ := code_rt_partial W v hwf hdom himp
+  obtain ⟨v', hrun, he⟩ := code_rt_partial W v hwf hdom hr hn
   have hrisk := no_risk W v (valOK_of_dom W v hdom)
-  simp [outcome, hrisk, hr, he]
+  simp [outcome, hr, hrisk, hrun, he]
+
+/-- **render either refuses or round-trips**: `PycodeSerializer.render` raises
+`SerializerError` exactly when one outermost name belongs to two modules among
+the types it collected; otherwise it returns the source text, and (within the
+nesting limit) that source evaluates back to an equal object. It never returns
+source that builds something else. -/
+theorem render_refuses_or_round_trips (W : World) (v : Val) (var : Str)
+    (hwf : wf W v = true) (hdom : domOK W v = true) (hn : nestingOK W v = true) :
+    (sourceE W v var = .error .serializerError ∧ clashFree (render W v).types = false) ∨
+    (sourceE W v var = .ok (source W v var) ∧ ∃ v', run W v = .ok v' ∧ pyEq v' v = true) := by
+  cases hr : renders W v
+  · left
+    exact ⟨by simp [sourceE, hr], by simpa [renders] using hr⟩
+  · right
+    exact ⟨by simp [sourceE, hr], code_rt_partial W v hwf hdom hr hn⟩
 
 /-- **code_rt for any adequate namespace**: the round trip does not depend on
 how the names got bound — any namespace in which the references resolve will do
@@ -188,23 +231,39 @@ def good : Val :=
            .model in2R [.dict [(.enum topR cs!"B", .qname cs!"{a\\b}\"x")]]],
     .tuple [.enum innerR cs!"A", .dict [(.tuple [.int 1, .int 2], .set true [.tuple [.int 3], .none]), (.int 0, .set false [])]], en, .bool false]
 
-example : wf W1 good = true ∧ domOK W1 good = true ∧ importsOK W1 good = true := by decide
+example : wf W1 good = true ∧ domOK W1 good = true ∧ renders W1 good = true ∧ nestingOK W1 good = true := by decide
 example : outcome W1 good = cs!"equal" := by decide
 
 /-! ## Full-strength statements and why they still fail -/
 
-/-- C18, first half, at full strength: every instance in the domain
-round-trips. **False** of the code as it stands (import name clashes). -/
+/-! ## The property at full strength
+
+`render` is partial since the fix `c18c-01`: it refuses (SerializerError) an
+object graph in which one outermost name belongs to classes of two modules,
+instead of emitting source in which the later import shadows the earlier one.
+The second half of C18 (imports) holds of every object it does render; the
+first half still fails for one reason: CPython's tokenizer accepts at most
+`Tables.parserMaxNesting` (200) open brackets, and every level of a collection
+or of a model adds one. -/
+
+/-- C18, first half, at full strength: every instance in the domain that
+`render` accepts round-trips. **False**: deep nesting. -/
 def CodeRoundTrips : Prop :=
-  ∀ (W : World) (v : Val), wf W v = true → domOK W v = true →
+  ∀ (W : World) (v : Val), wf W v = true → domOK W v = true → renders W v = true →
     ∃ v', run W v = .ok v' ∧ pyEq v' v = true
 
-/-- C18, second half, at full strength: the emitted imports make every name
-the source uses denote the class it means. **False** of the code as it stands
-(import name clashes). -/
+/-- C18, second half: the emitted imports make every name the source uses
+denote the class it means. -/
 def ImportsSufficient : Prop :=
-  ∀ (W : World) (v : Val), wf W v = true → domOK W v = true →
+  ∀ (W : World) (v : Val), wf W v = true → domOK W v = true → renders W v = true →
     EnvGood W (importsEnv W v) (render W v).refs
+
+theorem importsSufficient : ImportsSufficient := imports_sufficient
+
+/-- `[[…[1]…]]`, `n` brackets deep -/
+def nestedList : Nat → Val
+  | 0 => .int 1
+  | n + 1 => .list [nestedList n]
 
 /-- decidable form of "running the source fails with `e`" -/
 def failsWith (W : World) (v : Val) (e : Err) : Bool :=
@@ -212,71 +271,52 @@ def failsWith (W : World) (v : Val) (e : Err) : Bool :=
   | .error e' => e' == e
   | .ok _ => false
 
-/-- decidable form of "running the source gives a value unequal to the original" -/
-def givesUnequal (W : World) (v : Val) : Bool :=
-  match run W v with
-  | .ok v' => !pyEq v' v
-  | .error _ => false
-
 theorem not_rt_of_fails {W : World} {v : Val} {e : Err} (h : failsWith W v e = true) :
     ¬ ∃ v', run W v = .ok v' ∧ pyEq v' v = true := by
   rintro ⟨v', hr, _⟩
   simp [failsWith, hr] at h
 
-theorem not_rt_of_unequal {W : World} {v : Val} (h : givesUnequal W v = true) :
-    ¬ ∃ v', run W v = .ok v' ∧ pyEq v' v = true := by
-  rintro ⟨v', hr, he⟩
-  simp [givesUnequal, hr, he] at h
+/-- **Defect — nesting beyond the parser's limit.** A list nested 201 deep (or
+101 levels of a model holding a list of models) is rendered, but the source
+does not compile: "too many nested parentheses". 200 deep still works. -/
+theorem deep_nesting_does_not_compile :
+    wf [] (nestedList 201) = true ∧ domOK [] (nestedList 201) = true ∧ renders [] (nestedList 201) = true ∧
+    (render [] (nestedList 201)).depth = 201 ∧ failsWith [] (nestedList 201) .syntaxError = true ∧
+    outcome [] (nestedList 200) = cs!"equal" := by
+  decide +kernel
 
-/-- decidable form of `EnvGood` -/
-def envGoodB (W : World) (env : Xs.Code.Env) (refs : List (List Str × ClsRef)) : Bool :=
-  refs.all fun pc => match resolve W env pc.1 with
-    | .ok r => r == pc.2
-    | .error _ => false
+theorem not_codeRoundTrips : ¬ CodeRoundTrips := fun h =>
+  not_rt_of_fails deep_nesting_does_not_compile.2.2.2.2.1
+    (h [] (nestedList 201) deep_nesting_does_not_compile.1 deep_nesting_does_not_compile.2.1
+      deep_nesting_does_not_compile.2.2.1)
 
-theorem envGoodB_of {W : World} {env : Xs.Code.Env} {refs : List (List Str × ClsRef)}
-    (h : EnvGood W env refs) : envGoodB W env refs = true := by
-  simp only [envGoodB, List.all_eq_true]
-  intro pc hpc
-  simp [h pc hpc]
-
-/-- **Defect — the same class name imported from two modules.** The later
-import shadows the earlier one; the source then builds the wrong class
-(unequal) or passes it a keyword it does not know (TypeError). -/
+/-- The former defect (one class name imported from two modules: wrong class
+built, or TypeError for an unknown keyword) is now refused; a class named like
+a builtin the source calls (`float`) next to such a value is refused too. -/
 def addrA : ClsRef := ⟨mA, [cs!"Address"]⟩
 def addrB : ClsRef := ⟨mB, [cs!"Address"]⟩
+def floatCls : ClsRef := ⟨mA, [cs!"float"]⟩
 def W2 : World := [
   ⟨addrA, .model [⟨cs!"x", true, .value .none⟩, ⟨cs!"y", true, .value (.int 0)⟩]⟩,
-  ⟨addrB, .model [⟨cs!"x", true, .value .none⟩, ⟨cs!"w", true, .value (.int 0)⟩]⟩]
+  ⟨addrB, .model [⟨cs!"x", true, .value .none⟩, ⟨cs!"w", true, .value (.int 0)⟩]⟩,
+  ⟨floatCls, .model [⟨cs!"v", true, .value .none⟩]⟩]
 def clashWitness1 : Val := .model addrA [.model addrB [.none, .int 1], .int 0]
 def clashWitness2 : Val := .model addrB [.model addrA [.none, .int 1], .int 0]
+def shadowWitness : Val := .model floatCls [.float .pinf cs!"inf"]
 
-theorem import_name_clash :
+theorem name_clash_is_refused :
     wf W2 clashWitness1 = true ∧ domOK W2 clashWitness1 = true ∧
-    importsEnv W2 clashWitness1 = [(mA, cs!"Address"), (mB, cs!"Address")] ∧
-    givesUnequal W2 clashWitness1 = true ∧
-    wf W2 clashWitness2 = true ∧ domOK W2 clashWitness2 = true ∧
-    failsWith W2 clashWitness2 .typeError = true ∧
-    envGoodB W2 (importsEnv W2 clashWitness1) (render W2 clashWitness1).refs = false := by
+    renders W2 clashWitness1 = false ∧ renders W2 clashWitness2 = false ∧
+    outcome W2 clashWitness1 = cs!"refused:SerializerError" ∧
+    wf W2 shadowWitness = true ∧ domOK W2 shadowWitness = true ∧
+    renders W2 shadowWitness = false := by
   decide
 
-/-- the full-strength round-trip statement is false -/
-theorem not_codeRoundTrips : ¬ CodeRoundTrips := fun h =>
-  not_rt_of_unequal import_name_clash.2.2.2.1
-    (h W2 clashWitness1 import_name_clash.1 import_name_clash.2.1)
-
-/-- the full-strength import statement is false: name clash -/
-theorem not_importsSufficient : ¬ ImportsSufficient := by
-  intro h
-  have := envGoodB_of (h W2 clashWitness1 import_name_clash.1 import_name_clash.2.1)
-  rw [import_name_clash.2.2.2.2.2.2.2] at this
-  cases this
-
-/-- The remaining exclusion is needed: the clash witnesses satisfy `wf` and
-`domOK` and violate only `importsOK`. -/
-theorem exclusions_are_tight :
-    importsOK W2 clashWitness1 = false ∧ importsOK W2 clashWitness2 = false := by
-  decide
+/-- an instance of one of the two `Address` classes alone, or a clashing value
+that is elided because it equals the field default, is rendered -/
+example : renders W2 (.model addrA [.none, .int 3]) = true ∧
+    renders W2 (.model addrA [.none, .int 0]) = true ∧
+    outcome W2 (.model addrB [.model addrB [.none, .int 1], .int 0]) = cs!"equal" := by decide
 
 /-! ## The repaired defects stay repaired
 
